@@ -6,3 +6,5 @@ pub mod t1;
 pub mod n1;
 pub mod n2;
 pub mod n3;
+pub mod g1;
+pub mod g2;
